@@ -69,7 +69,7 @@ def sock_stubs(frames: Optional[Callable] = None, extra=None) -> Dict[str, Calla
     return st
 
 
-def frame_source(ops=("TEXT", "BINARY", "CONT", "CLOSE", "PING", "PONG"), errors=(CLOSED_EXC,), fin=None):
+def frame_source(ops=("TEXT", "BINARY", "CONT", "CLOSE", "PING", "PONG"), errors=(CLOSED_EXC,), fin=None, reassembled=False):
     """Stub for appsock.recv_data_frame: one of the opcodes, or one of the exceptions."""
     def f(I, run, args, kwargs, node):
         run.effect("appsock.recv_data_frame", args, kwargs, node=node)
@@ -79,7 +79,15 @@ def frame_source(ops=("TEXT", "BINARY", "CONT", "CLOSE", "PING", "PONG"), errors
             raise_exc(I, run, errors[ch - len(ops)], node, "recv-error")
         op = OPS[ops[ch]]
         data = Sym("fdata", "bytes")
-        fr = new_obj(run, "_abnf:ABNF", "frame", opcode=C(op), data=data, fin=fin if fin is not None else Sym("ffin", "int"))
+        last_op = op
+        run.memo["reassembled"] = False
+        if reassembled and ops[ch] in ("TEXT", "BINARY"):
+            # a message reassembled from fragments is returned as (opcode of the FIRST fragment, the LAST frame):
+            # the frame object then carries opcode CONT
+            if run.choose(2, I.locof(node), f"{ops[ch]} message: single frame / reassembled from fragments") == 1:
+                last_op = OPS["CONT"]
+                run.memo["reassembled"] = True
+        fr = new_obj(run, "_abnf:ABNF", "frame", opcode=C(last_op), data=data, fin=fin if fin is not None else Sym("ffin", "int"))
         run.memo["frame_op"] = ops[ch]
         return Tup((C(op), fr))
     return f
